@@ -580,6 +580,8 @@ protected:
               ConditionalConstraint< QuadConRhs<0> >
               { { std::move(lhs.GetAlgConBody()),
                   -lhs.constant_term() } } );
+    if (eq.is_constant())            // comparison result already known
+      return EExpr::Constant{ 1.0 - eq.constant_term() };
     assert(eq.is_variable());
     return AssignResult2Args(
           NotConstraint({eq.get_representing_variable()}));
